@@ -28,6 +28,10 @@ BODIES = [
     ('ah', lambda f: [[next(f), next(f), next(f)]], 3),
     ('(hs)h', lambda f: [[next(f), 'x'], next(f)], 2),
     ('s', lambda f: ['plain'], 0),
+    # one descriptor passed for two arguments (one log file for stdout and
+    # stderr): it travels twice, once per argument
+    ('hh', lambda f: (lambda x: [x, x])(next(f)), 2),
+    ('ah', lambda f: (lambda x, y: [[x, y, x]])(next(f), next(f)), 3),
 ]
 # descriptors inside variants: txdbus has no wrapper type with which a
 # sender could say "this variant holds a descriptor", but peers written with
@@ -487,7 +491,8 @@ def _task_many_fds(counts):
 def run(ctx):
     ctx.rule = (
         'sender: every sequence of <= 3 calls over %d bodies (none, h, hh, '
-        'shs, ah with 0/2/3 entries, (hs)h, s; received only, in streams of '
+        'shs, ah with 0/2/3 entries, (hs)h, s, hh and ah naming one '
+        'descriptor twice; received only, in streams of '
         '<= 2: v, a{sv}h, hav holding descriptors) through callRemote on a UNIX '
         'transport; the transport log is grouped by write and compared. '
         'receiver: the same sequences, as method calls and with returns, '
